@@ -2,7 +2,7 @@
 """C03 — reported consumed length is exact and framing units are self-delimiting."""
 from harness import core, clsrun, clsops
 
-LEAN_MODULES = ['CpProps.C03']
+LEAN_MODULES = ['CpProps.C03', 'CpProps.C03Ssl2']
 RULE = ('objects of every modelled class are built with the library constructors by type-directed generators (all enum '
         'members, unknown/GREASE code points, empty and maximal vectors, optional parts absent/present, boundary integers), '
         'composed, and the encodings are used as they are, with trailing bytes, concatenated, truncated at many offsets, '
